@@ -378,11 +378,15 @@ def add_name_box(cv, plan, src, features, plain=False):
     lines, pad_l, pad_r, need = plan["lines"], plan["pad_l"], plan["pad_r"], plan["need"]
     width = len(cv[0]) - 1                      # x of the table's right edge
     assert need + 1 <= width
-    if plain or src.bool(0.35):
+    top = cv[0]
+    at_columns = [x for x in range(need + 1, width) if top[x] == "┬"]
+    where = "full" if plain else src.weighted([(3, "any"), (3, "full"), (2, "column")])
+    if where == "full":
         xr = width
+    elif where == "column" and at_columns:
+        xr = src.choice(at_columns)
     else:
         xr = src.int(need + 1, width)
-    top = cv[0]
     if top[xr] in ("╥", "╦"):
         xr += 1
     if xr == width:
